@@ -3,6 +3,7 @@
 package c17
 
 import (
+	"encoding/base64"
 	"fmt"
 	"net/http"
 	"net/http/httptest"
@@ -488,6 +489,15 @@ func runRoute(sc RouteScript, v *vt.V) {
 		u.Path = "/v2/" + sc.Repo + "/blobs/uploads/"
 		reach = vr
 		wantMethod, want = "PushBlobChunked", rec.Call{Repo: sc.Repo}
+	case "uploadSession":
+		// GET (status), PATCH (chunk) and PUT (completion, digest in the query) of an upload in progress
+		u.Path = "/v2/" + sc.Repo + "/blobs/uploads/" + base64.RawURLEncoding.EncodeToString([]byte("upload-1"))
+		reach = vr
+		if sc.Method == "PUT" {
+			u.RawQuery = url.Values{"digest": {sc.Ref}}.Encode()
+			reach = vr && ociref.IsValidDigest(sc.Ref)
+		}
+		wantMethod, want = "PushBlobChunkedResume", rec.Call{Repo: sc.Repo, ID: "upload-1"}
 	case "mount":
 		u.Path = "/v2/" + sc.Repo + "/blobs/uploads/"
 		u.RawQuery = url.Values{"mount": {sc.Ref}, "from": {sc.From}}.Encode()
@@ -533,14 +543,14 @@ func runRoute(sc RouteScript, v *vt.V) {
 	}
 	got := calls[0]
 	got.Ctx = nil
-	got.ChunkSize = 0
+	got.ChunkSize, got.Offset0, got.Offset1 = 0, 0, 0
 	if got.String() != want.String() {
 		v.Failf("router-wrong-args", "%s %s: backend saw %v, want %v", sc.Method, u, got, want)
 	}
 }
 
 func genRoute(t *rapid.T) RouteScript {
-	sc := RouteScript{Form: rapid.SampledFrom([]string{"manifests", "manifests", "manifests", "blobs", "tags", "referrers", "uploads", "mount"}).Draw(t, "form")}
+	sc := RouteScript{Form: rapid.SampledFrom([]string{"manifests", "manifests", "manifests", "blobs", "tags", "referrers", "uploads", "uploadSession", "mount"}).Draw(t, "form")}
 	repo := func(name string) string {
 		switch rapid.IntRange(0, 5).Draw(t, name+"Kind") {
 		case 0, 1:
@@ -583,6 +593,15 @@ func genRoute(t *rapid.T) RouteScript {
 		}
 	case "tags":
 		sc.Method = "GET"
+	case "uploadSession":
+		sc.Method = rapid.SampledFrom([]string{"GET", "PATCH", "PUT"}).Draw(t, "method")
+		if sc.Method == "PUT" {
+			if rapid.IntRange(0, 3).Draw(t, "goodDigest") > 0 {
+				sc.Ref = gen.ValidDigest().Draw(t, "ref")
+			} else {
+				sc.Ref = noSlash(gen.HostileDigest().Draw(t, "ref"))
+			}
+		}
 	case "uploads":
 		sc.Method = "POST"
 	case "mount":
@@ -603,7 +622,7 @@ func genRoute(t *rapid.T) RouteScript {
 var propRoute = &vt.Prop[RouteScript]{
 	ID:   "C17",
 	Name: "RouterAgreesWithPredicates",
-	Rule: "requests GET/HEAD/DELETE /v2/<r>/manifests/<ref>, /blobs/<ref>, GET /tags/list, /referrers/<ref>, POST /blobs/uploads/ (plain and mount form) with r, from drawn from valid (routing words, lengths 254-257) and hostile repository generators (empty, dot segments, slashes, upper case, NUL, UTF-8) and ref from valid/hostile tags and digests incl. the empty string, driven through ociserver.ServeHTTP with hand-built URLs, a third of them with 1-4 path bytes percent-encoded although they need not be (the decoded path is what names the repository); oracle = backend (recorder) reached iff IsValidRepository(r) and IsValidTag/IsValidDigest(ref), and then with exactly (r, ref); non-trivial = repository valid or request reached the backend; distinct = request",
+	Rule: "requests GET/HEAD/DELETE /v2/<r>/manifests/<ref>, /blobs/<ref>, GET /tags/list, /referrers/<ref>, POST /blobs/uploads/ (plain and mount form), GET/PATCH/PUT /blobs/uploads/<id> with r, from drawn from valid (routing words, lengths 254-257) and hostile repository generators (empty, dot segments, slashes, upper case, NUL, UTF-8) and ref from valid/hostile tags and digests incl. the empty string, driven through ociserver.ServeHTTP with hand-built URLs, a third of them with 1-4 path bytes percent-encoded although they need not be (the decoded path is what names the repository); oracle = backend (recorder) reached iff IsValidRepository(r) and IsValidTag/IsValidDigest(ref), and then with exactly (r, ref); non-trivial = repository valid or request reached the backend; distinct = request",
 	Gen:  genRoute,
 	Run:  runRoute,
 }
